@@ -5,8 +5,9 @@ For every job (= one descriptor chosen by TLC, spec/Gate.tla):
   write    the engine is generated from vlib.engine (conforming source text),
            then the ONE violation of the descriptor is injected by editing
            the generated text at the named position; files go to
-           <work>/ae<shard>/<base>/...  with a base package name unique to the
-           descriptor (sys.modules never serves a stale package)
+           <harness work dir>/ae/<base>/...  with a base package name unique to
+           the descriptor (sys.modules never serves a stale package); the tree
+           is removed after the job unless VERIF_GATE_KEEP=1
   verify   dawgie.tools.compliant._scan() and ._verify() in-process:
              v_scan = _verify(_scan(), ..)      the path of `verify`/submit
              v_list = _verify([<base>.t0], ..)  the path of `-t <task>`
@@ -353,9 +354,6 @@ def materialise(d, base):
         ps = list(PARAMS[k])
         pname = ps[i].split(':')[0]
         ps[i] = (BAD_DEFAULT if viol == 'fac_default' else BAD_ANNOT)[pname]
-        if viol == 'fac_default' and i == 0:
-            # a default on the first parameter needs defaults on all (they have them)
-            pass
         t_ini = sub1(t_ini, f'def {k}(' + ', '.join(PARAMS[k]) + '):', f'def {k}(' + ', '.join(ps) + '):', viol)
     # ---- bot level
     elif viol == 'bot_base':
